@@ -235,6 +235,20 @@ def check_nav(c, st):
                     nd.normalize()
                     if snap(uu.URL(nd.to_text())) == snap(nd):      # its text still denotes the same reference
                         dest, ref = nd, nd.to_text()
+                elif c.get('ref_prep') in ('edited-query', 'built-from-parts'):
+                    # a reference object whose query was set through the API, not parsed from a text
+                    if c['ref_prep'] == 'edited-query':
+                        nd = uu.URL(ref)
+                        nd.query_params['zz-q'] = 'set-later'
+                    else:
+                        p0 = uu.URL(ref)
+                        nd = uu.URL.from_parts(scheme=p0.scheme, host=p0.host, path_parts=p0.path_parts,
+                                               query_params=p0.query_params.items(multi=True) + [('zz-q', 'built')],
+                                               fragment=p0.fragment, port=p0.port, username=p0.username,
+                                               password=p0.password)
+                    if snap(uu.URL(nd.to_text())) == snap(nd):
+                        dest, ref = nd, nd.to_text()
+                        st.count('refs-with-api-set-query')
                 elif c.get('ref_prep') in ('navigated', 'from_parts') and dest.scheme and dest.host:
                     # an absolute destination that is itself the product of navigate() / from_parts() (its components
                     # were never parsed from one text)
@@ -509,7 +523,7 @@ def gen(r):
     nref = 1 if r.random() < 0.75 else r.randint(2, 4)
     c = {'kind': 'nav', 'base': base, 'refs': [gen_ref(r) for _ in range(nref)], 'ref_as_url': r.random() < 0.3}
     if c['ref_as_url'] and r.random() < 0.6:
-        c['ref_prep'] = r.choice(['normalize', 'normalize', 'navigated', 'from_parts'])
+        c['ref_prep'] = r.choice(['normalize', 'normalize', 'navigated', 'from_parts', 'edited-query', 'built-from-parts'])
     if r.random() < 0.3:
         c['prep'] = r.choice(['normalize', 'navigated', 'edit-query', 'clear-query', 'edit-fragment'])
     if r.random() < 0.3:
